@@ -280,10 +280,14 @@ func Ite(cond string, a, b *Term) *Term {
 	if cond == "false" {
 		return b
 	}
-	common := Const(0)
-	if a.C == b.C {
-		common.C = a.C
+	// canonical polarity: a negated condition is stored positively with arms swapped
+	if strings.HasPrefix(cond, "!(") && strings.HasSuffix(cond, ")") {
+		cond = cond[2 : len(cond)-1]
+		a, b = b, a
 	}
+	// factor the common part; the else-arm's constant always moves out, so that
+	// ite(c ? 16 : 12) and 12 + ite(c ? 4 : 0) have the same normal form
+	common := Const(b.C)
 	for k, v := range a.K {
 		if b.K[k] == v {
 			common.K[k] = v
@@ -291,17 +295,7 @@ func Ite(cond string, a, b *Term) *Term {
 		}
 	}
 	ra, rb := a.Sub(common), b.Sub(common)
-	// canonical polarity: a negated condition is stored positively with arms swapped
-	if strings.HasPrefix(cond, "!(") && strings.HasSuffix(cond, ")") {
-		cond = cond[2 : len(cond)-1]
-		ra, rb = rb, ra
-	}
-	// ite(p != nil ? len(p) : 0) == len(p)   (a nil slice has length 0)
-	if strings.HasSuffix(cond, "!=nil") && rb.IsZero() {
-		if at := ra.SingleAtom(); at != nil && at.Kind == "len" && at.Path == strings.TrimSuffix(cond, "!=nil") {
-			return common.Add(ra)
-		}
-	}
+	// ite(p == nil ? 0 : len(p)) == len(p)   (a nil slice has length 0)
 	if strings.HasSuffix(cond, "==nil") && ra.IsZero() {
 		if at := rb.SingleAtom(); at != nil && at.Kind == "len" && at.Path == strings.TrimSuffix(cond, "==nil") {
 			return common.Add(rb)
